@@ -105,6 +105,9 @@ def cases(tier, seed):
     for t in families.deep_trees():
         if 'XOR' not in sh.tree_ops(t):
             yield ('K', cm.on_carrier([t]))
+    casey = sh.M(sh.F('Fa', [sh.R(0, 1, [sh.F('Wifi')]), sh.R(0, 1, [sh.F('WIFI')]), sh.R(0, 1, [sh.F('Ab')]), sh.R(0, 1, [sh.F('AB')])]),
+                 [('c1', ('REQUIRES', 'Wifi', 'Ab')), ('c2', ('REQUIRES', 'WIFI', 'AB')), ('c3', ('REQUIRES', 'Wifi', 'Ab'))])
+    yield ('K', casey)
     k1 = [t for t in cm.k1() if 'XOR' not in sh.tree_ops(t)]
     step = 5 if tier == 'quick' else 2
     for t1 in k1[::step]:
